@@ -220,4 +220,25 @@ theorem cmp_tt (a b c : Term) : TT (fastCompare a b) (fastCompare b c) (fastComp
     cases b <;> cases c <;> simp [tag] at h1 h2
     exact TT.then (cmpTy_tt _ _ _) (fun _ _ => ih _ _)
 
+
+/-- `fast_compare` does not distinguish `==` terms -/
+theorem cmp_congr_left (a a' b : Term) (h : Term.aeq a a' = true) :
+    fastCompare a b = fastCompare a' b := by
+  have e : fastCompare a a' = .eq := (cmp_eq a a').2 h
+  have e' : fastCompare a' a = .eq := by rw [← cmp_swap a a', e]; rfl
+  obtain ⟨_, _, t3, t4⟩ := cmp_tt a a' b
+  obtain ⟨_, _, u3, u4⟩ := cmp_tt a' a b
+  cases hb : fastCompare a' b with
+  | lt => exact t3 e hb
+  | eq => exact t4 e hb
+  | gt =>
+    cases ha : fastCompare a b with
+    | lt => have := u3 e' ha; rw [hb] at this; cases this
+    | eq => have := u4 e' ha; rw [hb] at this; cases this
+    | gt => rfl
+
+theorem cmp_congr_right (a b b' : Term) (h : Term.aeq b b' = true) :
+    fastCompare a b = fastCompare a b' := by
+  rw [← cmp_swap b a, ← cmp_swap b' a, cmp_congr_left b b' a h]
+
 end Holpy.C03
